@@ -1,6 +1,7 @@
 /- Driver/C04.lean — line-protocol driver for the C04 model and its specification machine. -/
 import PsutilModel.Base.Proto
 import PsutilModel.Model.C04Gen
+import PsutilModel.Model.C04Fine
 import PsutilModel.Spec.C04
 open Lean Psutil Psutil.Proto Psutil.C04
 
@@ -97,6 +98,20 @@ def handle (d : DSt) (j : Json) : R (DSt × Json) := do
                                       ("a_removed", jList jNat a.removed), ("b_removed", jList jNat b.removed),
                                       ("left", jList jNat rest)]),
                      ("spec", Json.null)])
+  -- one thread at statement granularity: what it read from the shared world → what it yields / publishes
+  if op == "fine" then
+    let pair : Json → R (Nat × Ref) := fun x => do pure (← natF x "pid", ← natF x "ref")
+    let touch : Json → R FTouch := fun x => do
+      let c ← field x "create" >>= asOpt asNat
+      pure ⟨c, ← boolF x "fill"⟩
+    let rd : FReads := ⟨← listF pair j "copy", ← listF asNat j "listing", ← listF asNat j "popped", ← boolF j "pop_err"⟩
+    let res := fineRun cfg rd (← boolF j "invalid") (← boolF j "has_attrs") (← natF j "base") (← listF touch j "touches")
+    let jPair : Nat × Ref → Json := fun x => Json.arr #[jNat x.1, jNat x.2]
+    return (d, jObj [("model", jObj [
+        ("todo", jList (fun (x : Nat × Option Ref) => Json.arr #[jNat x.1, jOpt jNat x.2]) res.todo),
+        ("yields", jList jPair res.yields),
+        ("published", jOpt (jList jPair) res.published),
+        ("exc", jOpt Json.str res.exc)]), ("spec", Json.null)])
   -- the platform functions called on their own (no `Op`: they are not part of the history machine)
   if op == "posix_pid_exists" then
     let n ← natF j "n"
